@@ -18,6 +18,7 @@ import (
 	"bytes"
 	"context"
 	"crypto/sha256"
+	"crypto/tls"
 	"encoding/json"
 	"errors"
 	"fmt"
@@ -25,6 +26,7 @@ import (
 	"math/rand"
 	"net"
 	nethttp "net/http"
+	"net/http/httptest"
 	"net/textproto"
 	"sort"
 	"strconv"
@@ -214,8 +216,13 @@ type pnode struct {
 type stack struct {
 	timeout time.Duration
 	rec     *recorder
+	tlsLn   net.Listener
 	a, b    *pnode
 	agent   string // address of an agent/reverseproxy.Server in front of the recorder
+	// the same agent server in front of the recorder behind TLS (HTTP/1.1) and in front of an
+	// HTTPS upstream that negotiates HTTP/2 (the agent's transport sets ForceAttemptHTTP2)
+	agentTLS, agentH2 string
+	h2up              *httptest.Server
 }
 
 const (
@@ -275,7 +282,94 @@ func newStack(timeout time.Duration) *stack {
 	asrv := reverseproxy.NewServer(aconf, reverseproxy.NewMetrics("verif"), log.NewNopLogger())
 	go func() { _ = asrv.Serve(lnG) }()
 	s.agent = lnG.Addr().String()
+
+	startAgent := func(addr string) string {
+		ln, err := net.Listen("tcp", "127.0.0.1:0")
+		if err != nil {
+			panic(err)
+		}
+		c := agentconfig.ListenerConfig{EndpointID: "agent", Addr: addr, Timeout: timeout}
+		c.AccessLog.Disable = true
+		c.AccessLog.Level = "info"
+		c.TLS.InsecureSkipVerify = true
+		srv := reverseproxy.NewServer(c, reverseproxy.NewMetrics("verif"), log.NewNopLogger())
+		go func() { _ = srv.Serve(ln) }()
+		return ln.Addr().String()
+	}
+	// TLS, HTTP/1.1 only: the raw recorder behind a TLS listener
+	tlsLn, err := net.Listen("tcp", "127.0.0.1:0")
+	if err != nil {
+		panic(err)
+	}
+	cert := harnessCert()
+	go func() {
+		for {
+			c, err := tlsLn.Accept()
+			if err != nil {
+				return
+			}
+			go s.rec.serve(tls.Server(c, &tls.Config{Certificates: []tls.Certificate{cert}, NextProtos: []string{"http/1.1"}}))
+		}
+	}()
+	s.tlsLn = tlsLn
+	s.agentTLS = startAgent("https://" + tlsLn.Addr().String())
+	// TLS + HTTP/2: a net/http server playing the recorder's current behaviour
+	s.h2up = httptest.NewUnstartedServer(nethttp.HandlerFunc(s.rec.serveH2))
+	s.h2up.EnableHTTP2 = true
+	s.h2up.StartTLS()
+	s.agentH2 = startAgent(s.h2up.URL)
 	return s
+}
+
+var (
+	certOnce sync.Once
+	certVal  tls.Certificate
+)
+
+// harnessCert: the self-signed certificate httptest ships (the agents skip verification).
+func harnessCert() tls.Certificate {
+	certOnce.Do(func() {
+		ts := httptest.NewUnstartedServer(nil)
+		ts.StartTLS()
+		certVal = ts.TLS.Certificates[0]
+		ts.Close()
+	})
+	return certVal
+}
+
+// serveH2 plays the behaviour set for the next request as an HTTP/2 (net/http) handler.
+func (r *recorder) serveH2(w nethttp.ResponseWriter, req *nethttp.Request) {
+	r.mu.Lock()
+	b := r.next
+	r.mu.Unlock()
+	body, berr := io.ReadAll(req.Body)
+	rec := record{method: req.Method, uri: req.RequestURI, host: req.Host, header: req.Header.Clone(), body: body, err: berr}
+	rec.header.Set("X-Verif-Proto", req.Proto)
+	r.mu.Lock()
+	r.recs = append(r.recs, rec)
+	r.mu.Unlock()
+	if b.kind == "closebefore" {
+		panic(nethttp.ErrAbortHandler) // resets the stream before any response
+	}
+	if b.delay > 0 {
+		select {
+		case <-time.After(b.delay):
+		case <-req.Context().Done():
+			return
+		}
+	}
+	for _, h := range b.headers {
+		w.Header().Add(h[0], h[1])
+	}
+	w.WriteHeader(b.status)
+	if b.kind == "closemid" {
+		_, _ = w.Write(b.body[:len(b.body)/2])
+		if f, ok := w.(nethttp.Flusher); ok {
+			f.Flush()
+		}
+		panic(nethttp.ErrAbortHandler)
+	}
+	_, _ = w.Write(b.body)
 }
 
 func (s *stack) close() {
@@ -284,6 +378,12 @@ func (s *stack) close() {
 	_ = s.a.srv.Shutdown(ctx)
 	_ = s.b.srv.Shutdown(ctx)
 	s.rec.ln.Close()
+	if s.tlsLn != nil {
+		s.tlsLn.Close()
+	}
+	if s.h2up != nil {
+		s.h2up.Close()
+	}
 }
 
 // ---------------------------------------------------------------- engine
@@ -369,6 +469,10 @@ func (e *httpEngine) addr(path string) string {
 		return e.cur.a.addr
 	case "agent":
 		return e.cur.agent
+	case "agent-tls":
+		return e.cur.agentTLS
+	case "agent-h2":
+		return e.cur.agentH2
 	}
 	return e.cur.b.addr
 }
@@ -672,8 +776,11 @@ func (e *httpEngine) fail(ws []string, o *Out) string {
 	if T == 0 && strings.HasPrefix(kind, "slow") {
 		return "bad-op"
 	}
-	if path == "agent" && (kind == "noendpoint" || kind == "noupstream" || kind == "dialerr") {
+	if strings.HasPrefix(path, "agent") && (kind == "noendpoint" || kind == "noupstream" || kind == "dialerr") {
 		return "bad-op"
+	}
+	if path == "agent-h2" && (strings.Contains(kind, "upgrade") || kind == "closemid-cl") {
+		return "bad-op" // no protocol upgrade over HTTP/2; the net/http upstream chunks by itself
 	}
 	if path != "fwd" && (kind == "noupstream-remote" || kind == "deadnode") {
 		return "bad-op"
